@@ -139,9 +139,10 @@ def run_check(pid, tier, seed, replay=None, workers=None, verbose=True):
         json.dump(dict(property=pid, case=v["_case"], witness=v.get("witness"), tier=tier, seed=seed), open(path, "w"), indent=1,
                   default=str)
         out_lines.append(f"VIOLATION property={pid} replay={path}")
-    for mech, its in known_hits.items():
-        out_lines.append(f"KNOWN-FINDING: property={pid} {mech} ({len(its)} occurrence(s) in this run): "
-                         f"{[k['description'] for k in known if k['mechanism'] == mech][0]}")
+    for k in known:
+        n_hit = len(known_hits.get(k["mechanism"], []))
+        seen = f"{n_hit} occurrence(s) in this run" if n_hit else "listed; not reproduced by the cases of this run"
+        out_lines.append(f"KNOWN-FINDING: property={pid} {k['mechanism']} ({seen}): {k['description']}")
 
     status = "held"
     if violations:
